@@ -216,7 +216,9 @@ where
     #[allow(clippy::should_implement_trait)]
     #[inline]
     pub fn next(&mut self) -> Option<Result<(&mut R, O), E>> {
-        self.done_recv.recv().unwrap().map(move |result| {
+        // a closed channel means that the reader thread ended without an end marker (e.g. its
+        // initialisation failed): end the stream, the error is returned when the thread is joined
+        self.done_recv.recv().ok().flatten().map(move |result| {
             match result {
                 Ok((r, o)) => {
                     let prev_rset = ::std::mem::replace(&mut self.current_recordset, r);
